@@ -294,6 +294,7 @@ def run_reads(case, prefix, seed):
     S = case["S"]
     g = grid.Grid(S, chooser=ch, fault_kinds=tuple(case.get("fault_kinds", ())),
                   client_kw=dict(k=case["k"], n=case["n"], happy=1, max_segment_size=case["seg"]))
+    g.sched.batch = bool(case.get("batch"))     # turn granularity, see grid.Sched.batch
     viol, obs = [], {"outcomes": []}
     try:
         placement = {int(sh): list(svs) for sh, svs in case["placement"].items()}
